@@ -36,7 +36,7 @@ def _nonempty_worker(ctx, item):
 
 def _idem_worker(ctx, item):
     """pieces re-split: text2 = text1[a:b] where [a,b) is a stripped statement of run 1"""
-    a, b, item_known = item
+    a, b, item_known, go_known = item
     cs = ctx['cs']
     if 'cs2' not in ctx:
         ctx['cs2'] = splitchar.CharSplit(ctx['tb'], cs.N, name='d')
@@ -65,6 +65,10 @@ def _idem_worker(ctx, item):
     reach = s.check()
     # listed finding: a `# ` comment with an empty body at the end of a statement loses its blank to
     # strip(), `#` alone is an operator and starts a new statement on re-splitting
+    # listed finding: a piece that starts right after a GO keyword (no whitespace in between) is lexed
+    # with a different look-behind context when it stands alone
+    if a > 0 and go_known:
+        s.add(z3.Not(lm.t.pred(lm.wordkey, a - 1)))
     if b < N and item_known:
         s.add(z3.Not(z3.And(lm.t.c[b - 1] == ord('#'), lm.t.c[b] == ord(' '))))
     s.add(z3.Or(z3.Not(cs2.final), *[cs2.flush[p] for p in range(b - a)]))
@@ -192,7 +196,15 @@ def run(tier):
             if why and 're-split' in why:
                 chk.report(KS, f'{k["example"]!r}: {why}', {})
                 known = True
-    pairs = [(a, b, known) for a in range(NI) for b in range(a + 1, NI + 1)]
+    KG = 'idempotence:piece-glued-to-GO-changes-lookbehind-context'
+    go_known = False
+    for k in chk.known:
+        if k['signature'] == KG and k.get('status', 'known') == 'known':
+            why = pieces_ok(k['example'])
+            if why and 're-split' in why:
+                chk.report(KG, f'{k["example"]!r}: {why}', {})
+                go_known = True
+    pairs = [(a, b, known, go_known) for a in range(NI) for b in range(a + 1, NI + 1)]
     t0 = time.time()
     results = par.pmap(_idem_worker, pairs, init=_init, init_args=(NI,))
     nq = nd = 0
@@ -215,6 +227,8 @@ def run(tier):
                 import re as _re
                 if 're-split' in why and _re.search(r'#[ ]\s*(;|$)|# \s*$', txt) and "gives" in why and why.rstrip().endswith("'#']"):
                     sig = KS
+                elif 're-split' in why and _re.search(r'(?i)\bgo(\s\d+)?[^\s\w]', txt):
+                    sig = KG
                 chk.report(sig, f'{txt!r}: {why}',
                            dict(input=txt, observed=sqlparse.split(txt), why=why,
                                 reproduce=f"cd /repo && /venv/bin/python -c \"import sqlparse; p=sqlparse.split({txt!r}); print(p, [sqlparse.split(x) for x in p])\""))
